@@ -111,7 +111,7 @@ def crop_item(bs, rate, dims, opts):
         if part == 'header':
             exp = dict(n_il=nd[0], n_xl=nd[1], n_s=nd[2], bs=bs, rate=rate, tracecount=nd[0] * nd[1], stored=sorted(stored),
                        il0=il0 + box[0][0] * il_step, xl0=xl0 + box[1][0] * xl_step, il_step=il_step, xl_step=xl_step,
-                       z0=T.z0 + box[2][0] * (T.interval_us // 1000), interval=T.interval_us)
+                       z0=T.z0 + box[2][0] * (T.interval_us // 1000), interval=T.interval_us, inherit_version=T.version)
             writers.check_container(E, out, exp, 'cropped')
             # SEG-Y binary header sample count (bytes 3220-3221 of the stored file header) follows the crop
             leaf = out.content.resolve(4096 + 3200 + 20, 2)
@@ -204,7 +204,7 @@ def reblock_item(dims, opts):
         nbs = (64, 64, 4)
         if part == 'header':
             exp = dict(n_il=dims[0], n_xl=dims[1], n_s=dims[2], bs=nbs, rate=2, tracecount=dims[0] * dims[1], stored=sorted(stored),
-                       il0=100, xl0=200, il_step=1, xl_step=1, z0=T.z0, interval=T.interval_us)
+                       il0=100, xl0=200, il_step=1, xl_step=1, z0=T.z0, interval=T.interval_us, inherit_version=T.version)
             writers.check_container(E, out, exp, 'reblocked')
             leaf = out.content.resolve(960, 20)
             E.check(leaf[0] == ('srchash',) and implied(leaf[1] == 0) if isinstance(leaf[0], tuple) else False, 'reblocked: source-data hash bytes are carried unchanged')
